@@ -10,7 +10,7 @@ use crate::hook;
 /// # Safety
 /// Called by instrumented code only.
 #[no_mangle]
-pub unsafe extern "C" fn __sanitizer_cov_trace_pc_guard(_guard: *mut u32) {
+pub unsafe extern "C" fn __sanitizer_cov_trace_pc_guard(guard: *mut u32) {
     // cheap filter first: only inside a guarded library call on a simulated thread
     if !hook::in_call_fast() {
         return;
@@ -18,7 +18,7 @@ pub unsafe extern "C" fn __sanitizer_cov_trace_pc_guard(_guard: *mut u32) {
     if hook::enter_cb() {
         return;
     }
-    hook::on_edge();
+    hook::on_edge(*guard);
     hook::leave_cb();
 }
 
@@ -26,13 +26,11 @@ pub unsafe extern "C" fn __sanitizer_cov_trace_pc_guard(_guard: *mut u32) {
 /// Called once per module by instrumented code.
 #[no_mangle]
 pub unsafe extern "C" fn __sanitizer_cov_trace_pc_guard_init(start: *mut u32, stop: *mut u32) {
-    // give every guard a non-zero id (the runtime contract); the ids are not used
+    // give every guard a process-unique non-zero id (init is called once per module)
     let mut p = start;
-    let mut n = 1u32;
     while p < stop {
         if *p == 0 {
-            *p = n;
-            n = n.wrapping_add(1).max(1);
+            *p = hook::next_guard_id();
         }
         p = p.add(1);
     }
